@@ -132,24 +132,26 @@ Theorem fold_float_guard_exact : forall fo op l r a b,
 Proof. exact ProofsFloat.fold_float_guard_exact. Qed.
 Print Assumptions fold_float_guard_exact.
 
-(* FULL statement Statement.fold_float_total (no operand makes the float folding code raise) is REFUTED: F7 *)
-Theorem fold_float_never_raises_refuted : exists fo op l r,
-  constant_fold_binary_float_op fo op l r = Crash OverflowError /\ py_num_binop fo op l r = RRaise OverflowError.
-Proof. exact ProofsFloat.fold_float_never_raises_refuted. Qed.
-Print Assumptions fold_float_never_raises_refuted.
+(* no operand makes the float folding code raise (after the fix of F7: the conversion prelude
+   `try: float(left), float(right) except OverflowError: return None`); under the monitored contract on float_pow *)
+Theorem fold_float_never_raises : forall fo op l r e, pow_contract fo ->
+  constant_fold_binary_float_op fo op l r <> Crash e.
+Proof. exact ProofsFloat.fold_float_never_raises. Qed.
+Print Assumptions fold_float_never_raises.
 
-(* ... exactly: outside `**` only the int -> float conversion of an operand can raise *)
-Theorem fold_float_crash_only_conversion : forall fo op l r e,
-  op <> "**"%string -> constant_fold_binary_float_op fo op l r = Crash e ->
-  e = OverflowError /\ (to_float fo l = RRaise OverflowError \/ to_float fo r = RRaise OverflowError).
-Proof. exact ProofsFloat.fold_float_crash_only_conversion. Qed.
-Print Assumptions fold_float_crash_only_conversion.
+(* an int operand too large for a float: not folded, and CPython raises for the operation as well *)
+Theorem fold_float_unconvertible : forall fo op l r e,
+  (to_float fo l = RRaise e \/ to_float fo r = RRaise e) ->
+  constant_fold_binary_float_op fo op l r = NotFolded /\ exists e', py_num_binop fo op l r = RRaise e'.
+Proof. exact ProofsFloat.fold_float_unconvertible. Qed.
+Print Assumptions fold_float_unconvertible.
 
-(* `**`: the guard (negative base only with an int exponent, or positive base) excludes ZeroDivisionError and complex
-   results, OverflowError is caught -- under the monitored contract on float_pow *)
-Theorem fold_float_pow_never_raises : forall fo l r e, pow_contract fo -> constant_fold_binary_float_op fo "**" l r <> Crash e.
-Proof. exact ProofsFloat.fold_float_pow_never_raises. Qed.
-Print Assumptions fold_float_pow_never_raises.
+(* +, -, *: always folded when both operands convert *)
+Theorem fold_float_arith_total : forall fo op l r a b,
+  (op = "+" \/ op = "-" \/ op = "*")%string -> to_float fo l = ROk a -> to_float fo r = ROk b ->
+  constant_fold_binary_float_op fo op l r = Folded (VFloat (FBin op a b)).
+Proof. exact ProofsFloat.fold_float_arith_total. Qed.
+Print Assumptions fold_float_arith_total.
 
 Theorem fold_str_exact : forall op l r n,
   constant_fold_binary_op_str_str op l r = (if String.eqb op "+" then Some (String.append l r) else None) /\
